@@ -22,6 +22,8 @@ From PV.Model Require Udf.
 From PV.Proofs Require UdfProofs UdfFidProofs UdfFeProofs.
 From PV.Model Require UdfVds UdfVdsBook.
 From PV.Proofs Require CodecProofs UdfVdsProofs UdfVdsDescProofs UdfVdsLvProofs.
+From PV.Model Require UdfDir.
+From PV.Proofs Require UdfDirProofs.
 Import ListNotations.
 Local Open Scope Z_scope.
 
@@ -155,3 +157,55 @@ Theorem C10_lvd_roundtrip_refuted : exists d r,
   verify_tag r = true /\ lvd_parse r 0 = None.
 Proof. exact UdfVdsLvProofs.lvd_roundtrip_refuted. Qed.
 End UdfVdsStatements.
+
+(* ---- one UDF directory under adds and removals: Model/UdfDir.v -------------------------------------------------
+   (hand model of UDFFileEntry.add_file_ident_desc / remove_file_ident_desc_by_name and of the identifier area laid
+   out at mastering; tied by udfdirleaf.py after every operation of random histories).  For EVERY history, refused
+   operations included: the information length is the sum of the descriptor lengths, the space granted is exactly
+   the blocks the area needs (after growth past a block, shrink back and growth again), Logical Blocks Recorded is
+   that number (false of the code before fix 5867ccb: stale after removals), names are unique and in insertion order,
+   descriptors lie where Fid.fid_locations says. *)
+Section UdfDirStatements.
+Import Prim Codec Checksums Fid Udf UdfDir FidProofs UdfDirProofs.
+
+Theorem C10_udf_directory_accounting : forall ops,
+  let st := fst (udfdir_run ops) in
+  ud_info_len st = udf_fid_length 0 +
+                   Fid.zsum (map (fun c => udf_fid_length (zlen (fst c))) (dir_names st)) /\
+  ud_ad_len st = ud_info_len st /\
+  snd (udfdir_run ops) = ceiling_div (ud_info_len st) 2048.
+Proof. exact UdfDirProofs.udfdir_inv. Qed.
+
+Theorem C10_udf_directory_blocks_recorded : forall ops,
+  ud_lbr (fst (udfdir_run ops)) = ceiling_div (ud_info_len (fst (udfdir_run ops))) 2048.
+Proof. exact UdfDirProofs.udfdir_lbr_fresh. Qed.
+
+Theorem C10_udf_directory_names : forall ops,
+  let st := fst (udfdir_run ops) in let cs := dir_names st in
+  ud_descs st = parent_fident :: map child_fident cs /\
+  NoDup (map fst cs) /\ Forall (fun c => zlen (fst c) <= 254) cs /\
+  (forall n d, In n (map fst cs) \/ 254 < zlen n -> udfdir_step 2048 st (Add n d) = (st, false, 0)) /\
+  (forall n d, ~ In n (map fst cs) -> zlen n <= 254 ->
+     exists st' dl, udfdir_step 2048 st (Add n d) = (st', true, dl) /\ dir_names st' = cs ++ [(n, d)]) /\
+  (forall n ne, ~ In n (map fst cs) -> udfdir_step 2048 st (Remove n ne) = (st, false, 0)) /\
+  (forall n d ne, In (n, d) cs -> n = [] \/ d && ne = true ->
+     udfdir_step 2048 st (Remove n ne) = (st, false, 0)) /\
+  (forall n d ne, In (n, d) cs -> n <> [] -> d && ne = false ->
+     exists st' dl, udfdir_step 2048 st (Remove n ne) = (st', true, - dl) /\
+                    dir_names st' = remove_name n cs).
+Proof. exact UdfDirProofs.udfdir_names. Qed.
+
+Theorem C10_udf_directory_layout : forall ops,
+  let st := fst (udfdir_run ops) in let lens := udfdir_lens st in let blocks := snd (udfdir_run ops) in
+  lens = udf_fid_length 0 :: map (fun c => udf_fid_length (zlen (fst c))) (dir_names st) /\
+  fits 2048 lens /\ Fid.zsum lens = ud_info_len st /\
+  fid_locations 2048 lens = map (fun s => s / 2048) (starts 0 lens) /\
+  Forall (fun l => 0 <= l < blocks) (fid_locations 2048 lens) /\
+  fid_blocks 2048 lens = blocks /\ udfdir_data_blocks st = blocks /\
+  ud_info_len st <= 2048 * blocks.
+Proof. exact UdfDirProofs.udfdir_layout. Qed.
+
+Theorem C10_udf_directory_refused_edit_changes_nothing : forall ops o,
+  udfdir_accepts (fst (udfdir_run ops)) o = false -> udfdir_run (ops ++ [o]) = udfdir_run ops.
+Proof. exact UdfDirProofs.udfdir_refused_unchanged. Qed.
+End UdfDirStatements.
